@@ -51,12 +51,18 @@ def make_main(d, name):
         for s in Lc:
             w(f"  uo.{s} = R(in);")
         w("  Control u(uo);")
+        w("  ControlOptions uo2 = uo;")
+        for s in Lc:
+            w(f"  uo2.{s} += 0.75;")
+        w("  Control u2(uo2);      // odd-numbered ticks are given this control instead")
     ctor = "MF mf(t0, sv" + (", cal" if Lk else "") + ");"
-    pm = lambda dt, st: f"ekf.process_model({dt}, {st}" + (", cal" if Lk else "") + (", u" if Lc else "") + ")"
+    pm = lambda dt, st: f"ekf.process_model({dt}, {st}" + (", cal" if Lk else "") + (", uc" if Lc else "") + ")"
     sm = lambda st, z: f"ekf.sensor_model({st}" + (", cal" if Lk else "") + f", {z})"
     w("  int nticks; in >> nticks;")
     w(f"  if (op == \"tick\") {{ {ctor}")
     w("    for (int t = 0; t < nticks; ++t) { double outT = R(in); int nr; in >> nr; std::vector<MF::StampedReading> rs;")
+    if Lc:
+        w("      const Control& uc = (t % 2 == 1) ? u2 : u;")
     w("      for (int r = 0; r < nr; ++r) { double ts = R(in); int sid; in >> sid; (void)ts; (void)sid;")
     for i, (key, rd) in enumerate(sorted(d.sensors.items())):
         T = cppgen.typename(key)
@@ -69,14 +75,18 @@ def make_main(d, name):
         w(f"          else {{ rs.push_back(mf.template wrap<{T}>(ts, zo)); }} }}")
     w("      }")
     w("      int withList; in >> withList;")
+    # readings handed over as a named vector, as a braced list (one reading / none), or not at all
+    first_T = cppgen.typename(sorted(d.sensors)[0]) if d.sensors else None
     if Lc:
-        w("      StateAndVariance r = (nr > 0 || withList) ? mf.tick(outT, u, rs) : mf.tick(outT, u);")
+        w("      StateAndVariance r = (nr > 1) ? mf.tick(outT, uc, rs) : (nr == 1) ? mf.tick(outT, uc, {rs[0]}) : withList ? mf.tick(outT, uc, {}) : mf.tick(outT, uc);")
     else:
-        w("      StateAndVariance r = (nr > 0 || withList) ? mf.tick(outT, rs) : mf.tick(outT);")
+        w("      StateAndVariance r = (nr > 1) ? mf.tick(outT, rs) : (nr == 1) ? mf.tick(outT, {rs[0]}) : withList ? mf.tick(outT, rs) : mf.tick(outT);")
     w("      dump(out, r, t); }")
     w("  } else {   // by hand: explicit dt lists")
     w("    ExtendedKalmanFilter ekf; StateAndVariance held = sv;")
     w("    for (int t = 0; t < nticks; ++t) { int nr; in >> nr;")
+    if Lc:
+        w("      const Control& uc = (t % 2 == 1) ? u2 : u;")
     w("      for (int r = 0; r < nr; ++r) { int nd; in >> nd; for (int k = 0; k < nd; ++k) { double dt = R(in); held = " + pm("dt", "held") + "; }")
     w("        int sid; in >> sid; (void)sid;")
     for i, (key, rd) in enumerate(sorted(d.sensors.items())):
@@ -143,6 +153,10 @@ def run(ctx):
                     sid = ctx.rng.randrange(len(keys))
                     rs.append((t0 + max_dt * ctx.rng.randint(-24, 40) / 8, sid, {r: float(gen.dyadic(ctx.rng)) for r in d.sensors[keys[sid]]}))
                 ticks.append({"out": t0 + max_dt * ctx.rng.randint(-24, 40) / 8, "readings": rs, "with_list": ctx.rng.random() < 0.3})
+            if s == 0:
+                # the same output time asked again straight away, no reading in between - only the control differs
+                ticks = ticks[:2] + [{"out": ticks[-1]["out"], "readings": [], "with_list": False}] if len(ticks) >= 1 else ticks
+                ticks.insert(1, {"out": ticks[0]["out"], "readings": [], "with_list": False})
             P = eh.spd(ctx.rng, len(Ls))
             # plan requests for every segment
             held = t0
